@@ -65,3 +65,61 @@ Proof.
               (conj (wmappers_ok c b f) (wmapper_rebuilds c b f)) Hk Hi) as (j & f' & H1 & H2 & H3 & _).
   eauto.
 Qed.
+
+(* ---- side condition "no entry key is a short name of the key map" is necessary (finding D51):
+   the reader renames EVERY key that equals a short name, also one the mapper wrote itself.
+   Witness: a mapper that stores the hash under "s" (as FileSystemTree's mapper stores the size),
+   default key_map of Tree = {"data_id": "i", "str": "s"}. *)
+Definition k_s' : text := t_ "s".
+Definition sser (i : info) (d : dict) : dict := d ++ [(k_n, JStr (i_name i)); (k_s', JInt (i_hash i))].
+Definition sdeser (idx : nat) (d : dict) : res dval :=
+  match dget k_n d, dget k_s' d with
+  | Some (JStr n), Some (JInt h) => Ok (DV false n h)
+  | _, _ => Err EKey
+  end.
+Definition f_s : forest := [ T 1 (oi 1 77 (t_ "O1") None) [] ].
+
+(* opts_ok without the short-name clause *)
+Definition opts_ok_weak (c : cls) (ser : info -> dict -> dict) (ko : kopt) (vo : vopt) (meta : dict) (f : forest) : Prop :=
+  km_ok (resolve_km c ko) /\
+  (forall t, In t (pre_f f) -> bare_str c (rinfo t) = false ->
+     NoDup (keys (ser (rinfo t) (entry_dict c (rinfo t)))) /\
+     (forall k v a, In (k, v) (ser (rinfo t) (entry_dict c (rinfo t))) -> assoc_t k (resolve_vm c vo f) = Some a ->
+                    exists s n, v = JStr s /\ last_index s a = Some n)) /\
+  meta_ok meta.
+
+Definition roundtrip_without_short_name_clause : Prop :=
+  forall c ser deser shash ko vo meta f,
+    tree_ok c f -> opts_ok_weak c ser ko vo meta f -> mapper_ok c ser deser f -> id_stable c ser deser shash f ->
+    exists j md f', save_doc c ser ko vo meta f = Ok j /\ load_doc c deser shash j = Ok (md, f').
+
+Lemma f_s_ok : tree_okb CPlain f_s = true. Proof. vm_compute. reflexivity. Qed.
+
+Theorem roundtrip_without_short_name_clause_refuted : ~ roundtrip_without_short_name_clause.
+Proof.
+  intros H. destruct (tree_okb_sound CPlain f_s f_s_ok) as (A1 & A2 & A3 & A4 & A5).
+  assert (Hm : meta_ok []) by (split; [constructor|intros k []]).
+  assert (Hin : forall t, In t (pre_f f_s) -> t = T 1 (oi 1 77 (t_ "O1") None) []).
+  { intros t [<-|[]]. reflexivity. }
+  assert (Hnd : NoDup (keys (sser (oi 1 77 (t_ "O1") None) (entry_dict CPlain (oi 1 77 (t_ "O1") None))))).
+  { apply (nodupb_sound text_eqb text_eqb_refl). vm_compute. reflexivity. }
+  destruct (H CPlain sser sdeser whash KTrue VTrue [] f_s) as (j & md & f' & Hs & Hl).
+  - unfold tree_ok; auto.
+  - split; [apply default_km_ok|]. split; [|exact Hm]. intros t Ht _. rewrite (Hin t Ht). split; [exact Hnd|].
+    intros k v a _ E. vm_compute in E. discriminate E.
+  - split; [split; [|split]|].
+    + intros t Ht. rewrite (Hin t Ht). cbn zeta. split; [exact Hnd|]. split; vm_compute; reflexivity.
+    + intros idx t Ht _. rewrite (Hin t Ht). eexists. vm_compute. reflexivity.
+    + intros idx t d' Ht Hp. rewrite (Hin t Ht) in *. unfold sdeser.
+      now rewrite !(dget_perm _ _ _ Hnd (Permutation_sym Hp)).
+    + intros p t Ht _. rewrite (Hin t Ht). cbn zeta. vm_compute. split; reflexivity.
+  - split.
+    + intros t Ht Hb. rewrite (Hin t Ht) in Hb. vm_compute in Hb. discriminate Hb.
+    + intros p t Ht _ _. rewrite (Hin t Ht). vm_compute. reflexivity.
+  - vm_compute in Hs. injection Hs as <-. vm_compute in Hl. discriminate Hl.
+Qed.
+
+(* what happens: the document is written, the reader turns the mapper's "s" into "str" *)
+Lemma d51_witness :
+  exists j, save_doc CPlain sser KTrue VTrue [] f_s = Ok j /\ load_doc CPlain sdeser whash j = Err EKey.
+Proof. eexists. split; vm_compute; reflexivity. Qed.
